@@ -489,6 +489,31 @@ class VariantReach:
     def blocks(self, start_bb, init=None, avoid=(), avoid_edges=()):
         return {bb for bb, _ in self.reach(start_bb, init, avoid, avoid_edges)}
 
+    def blocks_after_def(self, def_bb, local, variant, avoid=()):
+        """blocks reachable after the block `def_bb` (which defines `local`) has run, given that `local` then holds `variant`"""
+        avoid = set(avoid)
+        seen = set()
+        work = []
+        for n, et in self.step(def_bb, ()):
+            env = dict(et)
+            env[local] = tuple(variant)
+            st = (n, tuple(sorted(env.items())))
+            if n not in avoid and st not in seen:
+                seen.add(st)
+                work.append(st)
+        while work:
+            bb, env = work.pop()
+            for n, ne in self.step(bb, env):
+                if n in avoid:
+                    continue
+                st = (n, ne)
+                if st not in seen:
+                    if len(seen) > self.LIMIT:
+                        raise RuntimeError("VariantReach: state limit exceeded in %s" % self.body.name)
+                    seen.add(st)
+                    work.append(st)
+        return {bb for bb, _ in seen}
+
     def states_at(self, states, bb):
         return [dict(e) for b, e in states if b == bb]
 
